@@ -369,6 +369,9 @@ func extraPoolSinglePut(c *Ctx, r *Report, rule string) {
 	if rule == "C01-R11" {
 		addMutants(Mutant{Prop: "C01", Name: "double-put-stream-buffer", File: "internal/adapter/proxy/olla/service_retry.go", Rule: "C01-R11",
 			Old: "	stats.StreamingMs = time.Since(streamStart).Milliseconds()\n", New: "	if resp.StatusCode == http.StatusNoContent {\n		s.bufferPool.Put(buffer)\n	}\n	stats.StreamingMs = time.Since(streamStart).Milliseconds()\n"})
+	} else if rule == "C18-R13" {
+		addMutants(Mutant{Prop: "C18", Name: "double-put-on-client-abort", File: "internal/adapter/proxy/sherpa/service_retry.go", Rule: "C18-R13",
+			Old: "	defer s.bufferPool.Put(buffer)\n", New: "	defer s.bufferPool.Put(buffer)\n	if ctx.Err() != nil {\n		s.bufferPool.Put(buffer)\n		return ctx.Err()\n	}\n"})
 	} else {
 		addMutants(Mutant{Prop: "C02", Name: "double-put-stream-buffer", File: "internal/adapter/proxy/olla/service_retry.go", Rule: "C02-R8",
 			Old: "	stats.StreamingMs = time.Since(streamStart).Milliseconds()\n", New: "	if resp.StatusCode == http.StatusNoContent {\n		s.bufferPool.Put(buffer)\n	}\n	stats.StreamingMs = time.Since(streamStart).Milliseconds()\n"})
@@ -3086,9 +3089,21 @@ func init() { registerExtra("C13", extraC13TextVerbatim) }
 // freshSlice: the slice value was created in this function (make, append to nil/fresh, slice of a fresh array) and
 // therefore shares no backing array with a caller's value.
 func freshSlice(v ssa.Value, depth int) bool {
-	if depth == 0 || v == nil {
+	return freshSliceRec(v, depth, map[ssa.Value]bool{})
+}
+
+// freshSliceRec: coinductive over cycles (a loop that appends to the variable it reads: make → phi → append → phi).
+func freshSliceRec(v ssa.Value, depth int, seen map[ssa.Value]bool) bool {
+	if v == nil {
 		return false
 	}
+	if seen[v] {
+		return true
+	}
+	if depth == 0 {
+		return false
+	}
+	seen[v] = true
 	switch x := v.(type) {
 	case *ssa.MakeSlice:
 		return true
@@ -3099,17 +3114,17 @@ func freshSlice(v ssa.Value, depth int) bool {
 			_, isArr := deref(a.Type()).Underlying().(*types.Array)
 			return isArr
 		}
-		return freshSlice(x.X, depth-1)
+		return freshSliceRec(x.X, depth-1, seen)
 	case *ssa.Phi:
 		for _, e := range x.Edges {
-			if !freshSlice(e, depth-1) {
+			if !freshSliceRec(e, depth-1, seen) {
 				return false
 			}
 		}
 		return true
 	case *ssa.Call:
 		if b, ok := x.Call.Value.(*ssa.Builtin); ok && b.Name() == "append" {
-			return freshSlice(x.Call.Args[0], depth-1)
+			return freshSliceRec(x.Call.Args[0], depth-1, seen)
 		}
 		ci := describeCall(&x.Call)
 		if ci.Pkg == "slices" && ci.Name == "Clone" {
@@ -3149,7 +3164,7 @@ func freshSlice(v ssa.Value, depth int) bool {
 			return false
 		}
 		for _, st := range stores {
-			if !freshSlice(st.Val, depth-1) {
+			if !freshSliceRec(st.Val, depth-1, seen) {
 				return false
 			}
 		}
@@ -4324,4 +4339,324 @@ func extraC17SizeCheckUnconditional(c *Ctx, r *Report) {
 	addMutants(Mutant{Prop: "C17", Name: "size-check-skipped-for-get", File: "internal/adapter/security/request_size_limit.go", Rule: "C17-R10",
 		Old: "	if req.BodySize > sv.maxBodySize {",
 		New: "	if req.Method == \"GET\" || req.Method == \"HEAD\" {\n		return nil\n	}\n	if req.BodySize > sv.maxBodySize {"})
+}
+
+// ---------- C18-R12: an engine that polices stalls with a helper goroutine reads the body nowhere else ----------
+func init() { registerExtra("C18", extraC18NoInlineRead) }
+
+func extraC18NoInlineRead(c *Ctx, r *Report) {
+	r.Rule("C18-R12", "in a proxy engine package that reads the backend body on a helper goroutine (so that a select on the read-timeout timer can give up on it), every io.Reader.Read in that package is made on such a goroutine: an inline body.Read — for some class of responses, say the non-streaming ones — blocks until the backend speaks again and the read timeout never fires for it (the engine whose reads are all inline is the subject of C18-R3)", 1)
+	type site struct {
+		f    *ssa.Function
+		in   ssa.Instruction
+		onGo bool
+	}
+	byPkg := map[string][]site{}
+	for _, f := range c.Funcs {
+		pp := fnPkgPath(f)
+		if !strings.Contains(pp, "/adapter/proxy/") {
+			continue
+		}
+		eachInstr(f, func(in ssa.Instruction) {
+			cc := getCall(in)
+			if cc == nil || !cc.IsInvoke() || cc.Method.Name() != "Read" || len(cc.Args) != 1 {
+				return
+			}
+			if _, isSlice := cc.Args[0].Type().Underlying().(*types.Slice); !isSlice {
+				return
+			}
+			onGo := false
+			if p := f.Parent(); p != nil {
+				eachInstr(p, func(pi ssa.Instruction) {
+					if g, ok := pi.(*ssa.Go); ok {
+						if mc, ok := g.Call.Value.(*ssa.MakeClosure); ok && mc.Fn == ssa.Value(f) {
+							onGo = true
+						}
+					}
+				})
+			}
+			byPkg[pp] = append(byPkg[pp], site{f, in, onGo})
+		})
+	}
+	n := 0
+	for _, pp := range sortedKeys(byPkg) {
+		sites := byPkg[pp]
+		adopts := false
+		for _, s := range sites {
+			if s.onGo {
+				adopts = true
+			}
+		}
+		if !adopts {
+			continue
+		}
+		for _, s := range sites {
+			n++
+			key := fmt.Sprintf("%s:body-read", fname(s.f))
+			if s.onGo {
+				r.OK("C18-R12", key, s.in.Pos(), "the read runs on a helper goroutine the caller can abandon when the timer fires")
+			} else {
+				r.Bad("C18-R12", key, s.in.Pos(), "an inline Read in an engine whose stall detection relies on abandoning a helper goroutine: for the responses that take this path a silent backend is never cut off")
+			}
+		}
+	}
+	if n == 0 {
+		r.Undecided("C18-R12", "goroutine-reads", token.NoPos, "no proxy engine reads the backend body on a helper goroutine")
+	}
+	addMutants(Mutant{Prop: "C18", Name: "inline-read-for-buffered", File: "internal/adapter/proxy/sherpa/service_streaming.go", Rule: "C18-R12",
+		Old: "		result, err := s.performTimedRead(combinedCtx, resp.Body, buffer, readTimeout, state, rlog)\n",
+		New: "		var result *readResult\n		var err error\n		if state.isStreaming {\n			result, err = s.performTimedRead(combinedCtx, resp.Body, buffer, readTimeout, state, rlog)\n		} else {\n			n, rerr := resp.Body.Read(buffer)\n			result = &readResult{n: n, err: rerr}\n		}\n"})
+}
+
+// ---------- C11-R9: candidate lists are edited in place only when they belong to the request ----------
+func init() {
+	registerExtra("C11", extraC11InPlaceOnOwnList)
+	registerExtra("C03", func(c *Ctx, r *Report) {
+		r.WithAlias(map[string]string{"C11-R9": "C03-R14"}, func() { extraC11InPlaceOnOwnList(c, r) })
+	})
+}
+
+func extraC11InPlaceOnOwnList(c *Ctx, r *Report) {
+	r.Rule("C11-R9", "an endpoint list is edited in place (x[:0] reused as an append target, append(x[:i], …), copy into x, x[i] = …, sorting x) only if it belongs to the request: the slice was made in that function (or by every caller that passes it in), or every getter of the endpoint repository hands out a newly made slice per call. A compacting filter over a snapshot shared between requests rewrites what the next request sees: after a request scoped to one provider the list of another provider's request holds the wrong endpoints", 3)
+	callers := map[*ssa.Function][]*ssa.CallCommon{}
+	for _, g := range c.Funcs {
+		eachInstr(g, func(in ssa.Instruction) {
+			if cc := getCall(in); cc != nil {
+				if sc := cc.StaticCallee(); sc != nil {
+					callers[sc] = append(callers[sc], cc)
+				}
+			}
+		})
+	}
+	ownSeen := map[ssa.Value]bool{}
+	var own func(v ssa.Value, depth int) bool
+	own = func(v ssa.Value, depth int) bool {
+		if v == nil {
+			return false
+		}
+		if freshSlice(v, 6) {
+			return true
+		}
+		if ownSeen[v] {
+			return true // coinductive: a loop variable fed by its own re-slices
+		}
+		if depth == 0 {
+			return false
+		}
+		ownSeen[v] = true
+		defer delete(ownSeen, v)
+		switch x := v.(type) {
+		case *ssa.Slice:
+			return own(x.X, depth)
+		case *ssa.Phi:
+			for _, e := range x.Edges {
+				if !own(e, depth-1) {
+					return false
+				}
+			}
+			return true
+		case *ssa.Call:
+			if b, ok := x.Call.Value.(*ssa.Builtin); ok && b.Name() == "append" {
+				return own(x.Call.Args[0], depth-1)
+			}
+			if sc := x.Call.StaticCallee(); sc != nil && sc.Blocks != nil && c.inRepo(sc) {
+				// a repo function returning either a fresh slice or (a re-slice of) one of its parameters that is own at this call
+				ok := true
+				eachInstr(sc, func(in ssa.Instruction) {
+					ret, isRet := in.(*ssa.Return)
+					if !isRet || len(ret.Results) == 0 {
+						return
+					}
+					res := ret.Results[0]
+					if !isEndpointSlice(res.Type()) || isNilConst(res) || freshSlice(res, 6) {
+						return
+					}
+					root := res
+					for {
+						if s, isS := root.(*ssa.Slice); isS {
+							root = s.X
+							continue
+						}
+						break
+					}
+					if p, isP := root.(*ssa.Parameter); isP {
+						for i, sp := range sc.Params {
+							if sp == p && i < len(x.Call.Args) && own(x.Call.Args[i], depth-1) {
+								return
+							}
+						}
+					}
+					if !own(res, depth-1) {
+						ok = false
+					}
+				})
+				return ok
+			}
+		case *ssa.Parameter:
+			f := x.Parent()
+			if f.Parent() != nil {
+				return false
+			}
+			for i, p := range f.Params {
+				if p != x {
+					continue
+				}
+				cs := callers[f]
+				if len(cs) == 0 {
+					return false
+				}
+				for _, cc := range cs {
+					if i >= len(cc.Args) || !own(cc.Args[i], depth-1) {
+						return false
+					}
+				}
+				return true
+			}
+		}
+		return false
+	}
+	// the repository's getters
+	sharedGetter := ""
+	nGet := 0
+	for _, f := range c.Funcs {
+		if f.Signature.Recv() == nil || !isNamed(f.Signature.Recv().Type(), "internal/adapter/discovery", "StaticEndpointRepository") || f.Parent() != nil {
+			continue
+		}
+		if f.Signature.Results().Len() == 0 || !isEndpointSlice(f.Signature.Results().At(0).Type()) {
+			continue
+		}
+		nGet++
+		eachInstr(f, func(in ssa.Instruction) {
+			if ret, ok := in.(*ssa.Return); ok && len(ret.Results) > 0 {
+				if res := ret.Results[0]; !isNilConst(res) && !freshSlice(res, 6) {
+					// delegating to another getter of the same type is fine
+					if call, isCall := res.(*ssa.Extract); isCall {
+						if cl, isCl := call.Tuple.(*ssa.Call); isCl {
+							if sc := cl.Call.StaticCallee(); sc != nil && sc.Signature.Recv() != nil && isNamed(sc.Signature.Recv().Type(), "internal/adapter/discovery", "StaticEndpointRepository") {
+								return
+							}
+						}
+					}
+					sharedGetter = fname(f) + " (" + c.Pos(in.Pos()) + ")"
+				}
+			}
+		})
+	}
+	if nGet == 0 {
+		r.Unresolved("C11-R9", "list getters of StaticEndpointRepository")
+		return
+	}
+	n := 0
+	for _, f := range c.Funcs {
+		if !c.inRepo(f) {
+			continue
+		}
+		idx := 0
+		eachInstr(f, func(in ssa.Instruction) {
+			var target ssa.Value
+			what := ""
+			switch x := in.(type) {
+			case *ssa.Store:
+				if ia, ok := x.Addr.(*ssa.IndexAddr); ok && isEndpointSlice(ia.X.Type()) {
+					target, what = ia.X, "element store"
+				}
+			case *ssa.Call:
+				cc := &x.Call
+				if b, ok := cc.Value.(*ssa.Builtin); ok {
+					switch b.Name() {
+					case "append":
+						// the destination, followed through the loop variable, starts as a re-slice x[:k] of another list
+						seenA := map[ssa.Value]bool{}
+						var find func(v ssa.Value) *ssa.Slice
+						find = func(v ssa.Value) *ssa.Slice {
+							if v == nil || seenA[v] {
+								return nil
+							}
+							seenA[v] = true
+							switch y := v.(type) {
+							case *ssa.Slice:
+								if _, isArr := y.X.Type().Underlying().(*types.Pointer); !isArr && y.High != nil {
+									return y
+								}
+							case *ssa.Phi:
+								for _, e := range y.Edges {
+									if s := find(e); s != nil {
+										return s
+									}
+								}
+							case *ssa.Call:
+								if b2, ok := y.Call.Value.(*ssa.Builtin); ok && b2.Name() == "append" {
+									return find(y.Call.Args[0])
+								}
+							}
+							return nil
+						}
+						if isEndpointSlice(cc.Args[0].Type()) {
+							if sl := find(cc.Args[0]); sl != nil {
+								target, what = sl.X, "append onto a re-slice"
+							}
+						}
+					case "copy":
+						if isEndpointSlice(cc.Args[0].Type()) {
+							target, what = cc.Args[0], "copy into"
+						}
+					}
+				} else {
+					ci := describeCall(cc)
+					if (ci.Pkg == "sort" && strings.HasPrefix(ci.Name, "Slice")) || (ci.Pkg == "slices" && (strings.HasPrefix(ci.Name, "Sort") || ci.Name == "Reverse")) {
+						if len(cc.Args) > 0 {
+							a := cc.Args[0]
+							if mi, ok := a.(*ssa.MakeInterface); ok {
+								a = mi.X
+							}
+							if isEndpointSlice(a.Type()) {
+								target, what = a, ci.Pkg+"."+ci.Name
+							}
+						}
+					}
+				}
+			}
+			if target == nil {
+				return
+			}
+			idx++
+			n++
+			key := fmt.Sprintf("%s:in-place#%d", fname(f), idx)
+			switch {
+			case own(target, 10):
+				r.OK("C11-R9", key, in.Pos(), what+": the list was made for this request (here or by every caller)")
+			case sharedGetter == "":
+				r.OK("C11-R9", key, in.Pos(), what+": the list is not provably local, but every repository getter hands out a newly made slice per call")
+			default:
+				r.Bad("C11-R9", key, in.Pos(), what+" edits an endpoint list that is not provably this request's own, while the repository getter "+sharedGetter+" hands out a slice shared between requests: one request's filtering rewrites the candidates of the next")
+			}
+		})
+	}
+	r.Extra["repository_list_getters"] = nGet
+	if n == 0 {
+		r.Undecided("C11-R9", "in-place-edits", token.NoPos, "no in-place edit of an endpoint list found")
+	}
+	addMutants(Mutant{Prop: "C11", Name: "shared-snapshot-filtered-in-place", File: "internal/app/handlers/handler_proxy.go", Rule: "C11-R9",
+		Old: "		compatible := make([]*domain.Endpoint, 0, len(endpoints))\n",
+		New: "		compatible := endpoints[:0]\n",
+		Edits: []Edit{
+			{"internal/adapter/discovery/repository.go", "	profileFactory *profile.Factory\n	mu             sync.RWMutex\n}", "	profileFactory *profile.Factory\n	healthySnap    []*domain.Endpoint\n	mu             sync.RWMutex\n}"},
+			{"internal/adapter/discovery/repository.go", "func (r *StaticEndpointRepository) GetHealthy(ctx context.Context) ([]*domain.Endpoint, error) {\n	r.mu.RLock()\n	defer r.mu.RUnlock()\n", "func (r *StaticEndpointRepository) GetHealthy(ctx context.Context) ([]*domain.Endpoint, error) {\n	r.mu.RLock()\n	defer r.mu.RUnlock()\n	if r.healthySnap != nil {\n		return r.healthySnap, nil\n	}\n"},
+		}})
+}
+
+// ---------- wave-4 own-property aliases (batch 2) ----------
+func init() {
+	// the provider-scoped list is what the balancer is given: it must answer with a member of that list, whatever
+	// other requests are inside Select at the same moment (scratch state kept on the shared selector breaks that) (C11)
+	registerExtra("C11", func(c *Ctx, r *Report) {
+		r.WithAlias(map[string]string{"C06-R1": "C11-R8"}, func() { checkC06(c, r) })
+	})
+	// a stream buffer that sits in the pool twice is handed to two concurrent streams: a completed stream then carries
+	// the other stream's bytes (C18)
+	registerExtra("C18", func(c *Ctx, r *Report) { extraPoolSinglePut(c, r, "C18-R13") })
+	// a listing update that fails half-way (cancelled, rejected) must leave the endpoint's previous catalogue intact (C20)
+	registerExtra("C20", func(c *Ctx, r *Report) {
+		r.WithAlias(map[string]string{"C10-R1": "C20-R13"}, func() { checkC10(c, r) })
+	})
 }
